@@ -176,6 +176,44 @@ def _work_long(task) -> core.Part:
                                {"kind": "window", "data": d.hex(), "start": st, "length": ln}, size=ln)
                         if p.full("window"):
                             return p
+    elif kind == "special":
+        # windows in which the running register takes a special value (0000, FFFF, F0B8, 0001, 8000) right before the
+        # last one, two or three octets - the hand-over points of any multi-octet / blocked implementation
+        inv = {}
+        for x in range(256):
+            for y in range(256):
+                inv.setdefault(R.fcs_step_fast(R.fcs_step_fast(0, x), y), (x, y))
+        for total in list(range(3, 80)) + [255, 256, 257, 1023, 1024, 1025, 2049, 2050, 2051]:
+            for tail in (1, 2, 3):
+                if total - tail - 2 < 0:
+                    continue
+                P = bytes(rnd.randrange(256) for _ in range(total - tail - 2))
+                r = R.fcs_reg(P) if len(P) < 300 else None
+                if r is None:
+                    r = 0xFFFF
+                    for b_ in P:
+                        r = R.fcs_step_fast(r, b_)
+                for target in (0x0000, 0xFFFF, 0xF0B8, 0x0001, 0x8000):
+                    x, y = inv[target]
+                    mid = bytes(((r & 0xFF) ^ x, (r >> 8) ^ y))
+                    for last in (b"\x00", b"\x2a", b"\xff\x7e", b"\x01\x02\x03"):
+                        if len(last) != tail:
+                            continue
+                        d = P + mid + last
+                        for typ in (bytes, bytearray):
+                            got = F.compute_checksum(typ(d), 0, len(d))
+                            exp = R.fcs16_fast(d)
+                            p.add("windows")
+                            if got != exp:
+                                p.viol("window", f"window:special:{len(d)}:{target:04x}:{tail}", f"compute_checksum of {len(d)} octets whose running register is {target:#06x} before the last {tail} octet(s) = {got:#06x}, reference {exp:#06x}",
+                                       {"kind": "window", "data": d.hex(), "start": 0, "length": len(d)}, size=len(d))
+                        f = F()
+                        for b_ in d:
+                            f.update(b_)
+                        if f.checksum != R.fcs16_fast(d):
+                            p.viol("long_run", f"special:{len(d)}:{target:04x}", f"incremental checksum wrong for {len(d)} octets with register {target:#06x} near the end", {"kind": "message", "msg": d.hex()}, size=len(d))
+            if p.full("window"):
+                return p
     elif kind == "reuse":
         # the same buffer object passed again and again (bytes and bytearray), windows in non-monotonic order, the
         # bytearray modified in place between calls: a static function must not remember anything about earlier calls
@@ -249,7 +287,7 @@ def main(run: core.Run) -> int:
     if not run.quick:
         tasks += [("three", a) for a in range(256)]
     run.merge(par.pmap(_work_cc, tasks, seed=run.seed))
-    run.merge(par.pmap(_work_long, [("windows", run.seed), ("windows", run.seed + 1), ("runs", run.seed), ("reuse", run.seed), ("reuse", run.seed + 1)], seed=run.seed))
+    run.merge(par.pmap(_work_long, [("windows", run.seed), ("windows", run.seed + 1), ("runs", run.seed), ("reuse", run.seed), ("reuse", run.seed + 1), ("special", run.seed), ("special", run.seed + 1)], seed=run.seed))
     tot = run.total
     tot.sample({"message": "7e0301", "update_returns": [hex(R.fcs_reg(b"\x7e")), hex(R.fcs_reg(b"\x7e\x03")),
                                                          hex(R.fcs_reg(b"\x7e\x03\x01"))]})
